@@ -37,6 +37,11 @@ def obligations(tier):
         obs.append(Ob("C19.tifa_tree", F, "tifa_tree", 400, part="%d,%s" % (k, side), what="depth-2 trees z = (x op1 y) op2 w / x op2 (y op1 w) through tifa_analysis (op1 = partition): TypeError anywhere => incompatible_types; else type of z admits the value"))
     for part in ("0,0", "0,1", "1,0", "1,1"):
         obs.append(Ob("C19.container_tree", F, "container_tree", 300, part=part, what="depth-2 trees over container operands ([] / [1] / ['s'] / [1.5] / () / (1,) / int / str) with + and * (partition = op1, op2): concatenation from an empty container, repetition, mixes"))
+    for k in ((1, 2, 5) if tier == "quick" else range(7)):
+        obs.append(Ob("C19.tifa_chain", F, "tifa_chain", 300, part=str(k), what="chained comparison r = x op1 y op2 z (op1 = partition): a TypeError between ANY adjacent pair => incompatible_types; else the type of r admits the value"))
+    for k in range(18):
+        obs.append(Ob("C19.tifa_glue_empty", F, "tifa_glue_empty", 200, part=str(k), what="x op y through tifa_analysis with EMPTY operands ('', [], (), {}, 0) on either side (operator = partition)"))
+    obs.append(Ob("C19.value_special", F, "value_special", 120, what="value typing of unusual legal values (NaN / inf / -0.0 / None / bool / tuple / frozenset keys, NaN elements, nested empty containers): a Type, subtype of itself and of a second query's result, conforms to the normalised Python type"))
     obs.append(Ob("C19.numeric_twins", F, "numeric_twins", 120, what="an int and the float equal to it typed in the same process, both orders: each keeps the type of its own Python type; 1 << 1.0 and 'ab' * 1.0 still impossible"))
     obs.append(Ob("C19.binop_reach", F, "binop_reach", 60, expect="refute", what="twin: a TypeError cell is reached and reported"))
     return obs
